@@ -65,30 +65,40 @@ Proof.
   - rewrite Nat.min_r by assumption. rewrite firstn_all, firstn_all2 by assumption. reflexivity.
 Qed.
 
+(* OverwriteNTruncate writes through [main]: the generated function returns (result, final main) *)
+Definition ont_main (main : bytes) (start : nat) (tail : bytes) : bytes :=
+  firstn start main ++ firstn (length main - start) tail ++
+  skipn (start + Nat.min (length main - start) (length tail)) main.
+
 Lemma ont_gen_eq : forall (main : bytes) (start : nat) (tail : bytes),
   (start <= length main)%nat ->
-  C09Gen.OverwriteNTruncate main (Z.of_nat start) tail = GOk (overwrite_n_truncate main start tail).
+  C09Gen.OverwriteNTruncate main (Z.of_nat start) tail =
+  GOk (overwrite_n_truncate main start tail, ont_main main start tail).
 Proof.
-  intros main start tail Hs. unfold C09Gen.OverwriteNTruncate, overwrite_n_truncate.
+  intros main start tail Hs. unfold C09Gen.OverwriteNTruncate, overwrite_n_truncate, ont_main.
   assert (E : (t0 <~ go_copy main (Z.of_nat start) tail ;;
-               let '(p0, v0) := t0 in t1 <~ go_slice_to p0 (Z.of_nat start + v0) ;; GOk t1) =
-              GOk (firstn start main ++ firstn (length main - start) tail)).
+               let '(p0, v0) := t0 in t1 <~ go_slice_to p0 (Z.of_nat start + v0) ;; GOk (t1, p0)) =
+              GOk (firstn start main ++ firstn (length main - start) tail,
+                   firstn start main ++ firstn (length main - start) tail ++
+                   skipn (start + Nat.min (length main - start) (length tail)) main)).
   { unfold go_copy, go_len.
     replace ((0 <=? Z.of_nat start) && (Z.of_nat start <=? Z.of_nat (length main)))%bool with true by lia.
     cbn [gbind]. set (n := Z.min (Z.of_nat (length main) - Z.of_nat start) (Z.of_nat (length tail))).
     assert (Hn : Z.to_nat n = Nat.min (length main - start) (length tail)) by lia.
-    rewrite Nat2Z.id, Hn, firstn_min_length. rewrite app_assoc.
+    replace (Z.to_nat (Z.of_nat start + n)) with (start + Nat.min (length main - start) (length tail))%nat by lia.
+    rewrite Nat2Z.id, Hn, firstn_min_length. rewrite (app_assoc (firstn start main)).
     replace (Z.of_nat start + n) with (go_len (firstn start main ++ firstn (length main - start) tail)).
-    - rewrite go_slice_to_app. reflexivity.
+    - rewrite go_slice_to_app. cbn [gbind]. rewrite <- app_assoc. reflexivity.
     - unfold go_len. rewrite app_length, !firstn_length. lia. }
   cbv zeta. destruct (go_len main - Z.of_nat start <? go_len tail); exact E.
 Qed.
 
-Lemma clean_gen_eq : forall s : bytes, C09Gen.CleanUTF8 s = GOk (clean_utf8 s).
+(* CleanUTF8 overwrites its argument in place: the generated function returns (result, final s) *)
+Lemma clean_gen_eq : forall s : bytes, exists s', C09Gen.CleanUTF8 s = GOk (clean_utf8 s, s').
 Proof.
-  intros s. unfold C09Gen.CleanUTF8, clean_utf8. destruct s as [|b s']; [reflexivity|].
-  set (s := b :: s'). replace (go_len s =? 0) with false by (unfold go_len, s; cbn [length]; lia).
+  intros s. unfold C09Gen.CleanUTF8, clean_utf8. destruct s as [|b s0]; [eexists; reflexivity|].
+  set (s := b :: s0). replace (go_len s =? 0) with false by (unfold go_len, s; cbn [length]; lia).
   rewrite fle_gen_eq. cbn [gbind]. cbv zeta. pose proof (fle_le s) as Hle.
   rewrite go_slice_from_nat by assumption. cbn [gbind strings_ToValidUTF8].
-  rewrite ont_gen_eq by assumption. reflexivity.
+  rewrite ont_gen_eq by assumption. cbn [gbind]. eexists. reflexivity.
 Qed.
